@@ -77,6 +77,10 @@ class RelativeJumpOpcode(OpcodeWithoutOperand):
             if physical_destination is None:
                 raise RuntimeError("Jumping from ram is not supported.")
 
+            if resolver.reloc_address.physical is None:
+                # resolver.pc is the storage offset there, not the offset of the run address.
+                raise RuntimeError("Relative jumps in code relocated to ram are not supported.")
+
             delta = physical_destination - pc
             delta -= 2
         else:
